@@ -4,6 +4,7 @@ mod autoalloc;
 mod common;
 mod restore;
 mod sched;
+mod enumsim;
 mod sim;
 mod stream;
 
@@ -311,6 +312,92 @@ pub fn sim_engine(prop: &str) -> Option<SimEngine> {
     })
 }
 
+/// Bounded exhaustive enumeration of small scenarios before the random search (see enumsim.rs).
+fn systematic_phase(prop: &'static str, tier: Tier, seed: u64) {
+    let (budget, depth) = match (tier, prop) {
+        (Tier::Quick, _) => (2400u64, 14usize),
+        (Tier::Thorough, "C09") => (400_000u64, 24usize),
+        (Tier::Thorough, _) => (120_000u64, 24usize),
+    };
+    let budget = std::env::var("VERIF_ENUM_BUDGET")
+        .ok()
+        .and_then(|v| v.parse().ok())
+        .unwrap_or(budget);
+    if budget == 0 {
+        return;
+    }
+    let known: Vec<common::KnownFinding> = common::load_known_findings()
+        .into_iter()
+        .filter(|k| k.property == prop && k.status == "open")
+        .collect();
+    let t0 = std::time::Instant::now();
+    let threads = std::env::var("VERIF_THREADS")
+        .ok()
+        .and_then(|v| v.parse().ok())
+        .unwrap_or(16usize);
+    let (res, known_hits) = enumsim::explore(prop, budget, depth, threads, known);
+    let executions: u64 = res.stats.iter().map(|s| s.executions).sum();
+    let states: u64 = res.stats.iter().map(|s| s.distinct_states).sum();
+    let transitions: u64 = res.stats.iter().map(|s| s.transitions).sum();
+    println!(
+        "{prop} systematic: {} scenarios, {executions} executions, {states} distinct states at the deepest completed bound, {:.1}s",
+        res.stats.len(),
+        t0.elapsed().as_secs_f64()
+    );
+    *common::EXTRA_COVERAGE.lock().unwrap() = Some(serde_json::json!({
+        "what": "bounded exhaustive enumeration (stateless depth-first search with visited-state pruning, iterative deepening) of all interleavings of deliveries, scheduler rounds, task ends and a bounded number of faults in small scenarios; 'depth' is the deepest bound explored (completely if exhaustive_to_depth), executions counts re-executions from the scenario start",
+        "executions": executions,
+        "transitions": transitions,
+        "states": states,
+        "wall_s": t0.elapsed().as_secs_f64(),
+        "scenarios": res.stats,
+    }));
+    *common::PRE_KNOWN_HITS.lock().unwrap() = known_hits.into_iter().collect();
+    if let Some((v, case)) = res.violation {
+        let dir = Path::new(common::VERIF_ROOT).join("replays").join(prop).join("found");
+        let _ = std::fs::create_dir_all(&dir);
+        let body = serde_json::to_string_pretty(&serde_json::json!({
+            "property": prop,
+            "seed": seed,
+            "signature": v.signature,
+            "detail": v.detail,
+            "case": case,
+        }))
+        .unwrap();
+        let path = dir.join(format!("enum-{:016x}.json", common::hash_str(&body)));
+        let _ = std::fs::write(&path, body);
+        *common::PRE_VIOLATION.lock().unwrap() = Some((v, path));
+    }
+}
+
+fn replay_enum(prop: &str, path: &Path) -> i32 {
+    let Some(p) = ["C01", "C02", "C03", "C05", "C06", "C07", "C08", "C09", "C13", "C14"]
+        .iter()
+        .find(|p| **p == prop)
+        .copied()
+    else {
+        eprintln!("property {prop} has no enumeration part");
+        return 2;
+    };
+    let text = std::fs::read_to_string(path).unwrap_or_default();
+    let v: serde_json::Value = serde_json::from_str(&text).unwrap_or_default();
+    let Ok(case) = serde_json::from_value::<enumsim::EnumCase>(v["case"].clone()) else {
+        eprintln!("cannot parse {}", path.display());
+        return 2;
+    };
+    let (run, taken) = enumsim::run_path(p, &case, case.path.len(), |_, _| false);
+    println!("{}", serde_json::to_string_pretty(&run.outcome.summary).unwrap_or_default());
+    println!("executed {} of {} steps", taken.len(), case.path.len());
+    if let Some(v) = run.outcome.violation {
+        println!("VIOLATION property={} replay={}", p, path.display());
+        println!("  signature: {}\n  detail: {}", v.signature, v.detail);
+        1
+    } else {
+        println!("no violation of {p} in this replay");
+        0
+    }
+}
+
 fn usage() -> ! {
     eprintln!("usage: hqverif check <ID> [quick|thorough] | hqverif replay <ID> <file>");
     std::process::exit(2)
@@ -333,6 +420,13 @@ fn main() {
             };
             let prop = args[2].as_str();
             if let Some(e) = sim_engine(prop) {
+                if let Some(p) = ["C01", "C02", "C03", "C05", "C06", "C07", "C08", "C09", "C13", "C14"]
+                    .iter()
+                    .find(|p| **p == prop)
+                    .copied()
+                {
+                    systematic_phase(p, tier, seed);
+                }
                 let code = run_engine(Arc::new(e), tier, seed);
                 code
             } else if prop == "C10" || prop == "C11" || prop == "C12" {
@@ -363,7 +457,13 @@ fn main() {
             }
             let prop = args[2].as_str();
             let path = Path::new(&args[3]);
-            if let Some(e) = sim_engine(prop) {
+            let is_enum = std::fs::read_to_string(path)
+                .ok()
+                .and_then(|t| serde_json::from_str::<serde_json::Value>(&t).ok())
+                .is_some_and(|v| v["case"].get("scenario").is_some());
+            if is_enum {
+                replay_enum(prop, path)
+            } else if let Some(e) = sim_engine(prop) {
                 replay_engine(&e, path)
             } else if prop == "C10" || prop == "C11" || prop == "C12" {
                 let p: &'static str = match prop { "C10" => "C10", "C11" => "C11", _ => "C12" };
